@@ -896,47 +896,43 @@ func (c *Ctx) poolReset(fn *ssa.Function, get *ssa.Call) {
 	}
 	for _, o := range objs {
 		if _, isMap := o.Type().Underlying().(*types.Map); isMap {
-			// a map: emptied (clear, or delete of every key in a range over it) before
+			// a map: emptied (clear, or a range over it that deletes every key) before
 			// anything else looks at it
 			var resets, uses []ssa.Instruction
-			if o.Referrers() != nil {
-				for _, ref := range *o.Referrers() {
-					switch x := ref.(type) {
-					case *ssa.Call:
-						if bi, isB := x.Call.Value.(*ssa.Builtin); isB && (bi.Name() == "clear" || bi.Name() == "delete") {
-							resets = append(resets, x)
-							continue
-						}
-						if strings.HasSuffix(Callee(x), "sync.Pool).Put") {
-							continue
-						}
-						uses = append(uses, x)
-					case *ssa.Defer:
-						if strings.HasSuffix(Callee(x), "sync.Pool).Put") {
-							continue
-						}
-						uses = append(uses, x)
-					case *ssa.Range:
-						// the range that drives a delete loop is part of the reset
-						uses = append(uses, x)
-					case *ssa.MakeInterface:
-						// handed to Put
-					case *ssa.DebugRef:
-					default:
-						uses = append(uses, ref)
+			for _, ref := range c.poolUses(o) {
+				switch x := ref.(type) {
+				case *ssa.Call:
+					if bi, isB := x.Call.Value.(*ssa.Builtin); isB && bi.Name() == "clear" {
+						resets = append(resets, x)
+						continue
 					}
+					if bi, isB := x.Call.Value.(*ssa.Builtin); isB && bi.Name() == "delete" {
+						continue // judged with the range that drives it
+					}
+					uses = append(uses, x)
+				case *ssa.Range:
+					// a range whose loop deletes from the map is the reset loop
+					deletes := false
+					for _, ref2 := range c.poolUses(o) {
+						if dc, ok := ref2.(*ssa.Call); ok {
+							if bi, isB := dc.Call.Value.(*ssa.Builtin); isB && bi.Name() == "delete" && BlockReaches(x.Block(), dc.Block()) && BlockReaches(dc.Block(), dc.Block()) {
+								deletes = true
+							}
+						}
+					}
+					if deletes {
+						resets = append(resets, x)
+					} else {
+						uses = append(uses, x)
+					}
+				default:
+					uses = append(uses, ref)
 				}
 			}
 			okReset := false
 			for _, rs := range resets {
 				all := true
 				for _, u := range uses {
-					if _, isRange := u.(*ssa.Range); isRange && BlockReaches(u.Block(), rs.Block()) && !InstrDominates(rs, u) {
-						// the loop this delete sits in
-						if bi := rs.(*ssa.Call).Call.Value.(*ssa.Builtin); bi.Name() == "delete" {
-							continue
-						}
-					}
 					if !InstrDominates(rs, u) {
 						all = false
 					}
@@ -945,8 +941,44 @@ func (c *Ctx) poolReset(fn *ssa.Function, get *ssa.Call) {
 					okReset = true
 				}
 			}
-			// a delete loop placed first: its range is the first use and every other use comes after the loop
 			r.Check(okReset, "C20.pool", name, "reset of "+Short(o.Type().String())+" from sync.Pool", posf(c, get), "the map is emptied before anything reads it", "the map taken from the pool was used by an earlier request and is not emptied before it is used: entries the earlier request left (on any exit that skipped its clean-up) are visible to this one")
+			continue
+		}
+		if hasResetMethod(o.Type()) {
+			// a buffer-like object: Reset() before any other use, and what is handed
+			// out of the function does not alias its memory
+			var resets, uses []ssa.Instruction
+			for _, ref := range c.poolUses(o) {
+				if call, ok := ref.(*ssa.Call); ok && strings.HasSuffix(Callee(call), ").Reset") && len(call.Call.Args) > 0 && call.Call.Args[0] == o {
+					resets = append(resets, call)
+					continue
+				}
+				uses = append(uses, ref)
+			}
+			okReset := false
+			for _, rs := range resets {
+				all := true
+				for _, u := range uses {
+					if !InstrDominates(rs, u) {
+						all = false
+					}
+				}
+				if all {
+					okReset = true
+				}
+			}
+			if !r.Check(okReset, "C20.pool", name, "reset of "+Short(o.Type().String())+" from sync.Pool", posf(c, get), "Reset() precedes every use", "the "+Short(o.Type().String())+" taken from the pool was used by an earlier request and is not Reset() before it is used: what the earlier request left in it (on any exit that skipped its clean-up) becomes part of this one's output") {
+				continue
+			}
+			for _, u := range uses {
+				call, ok := u.(*ssa.Call)
+				if !ok || !strings.HasSuffix(Callee(call), ").Bytes") {
+					continue
+				}
+				if esc := aliasEscapes(call, 0); esc != nil {
+					r.Bad("C20.pool", name, "Bytes() of pooled "+Short(o.Type().String())+" handed out", posf(c, esc), "the slice returned aliases the pooled buffer's memory, which goes back to the pool when this function ends: the next request that takes the buffer overwrites what the caller is still using")
+				}
+			}
 			continue
 		}
 		st, ok := derefType(o.Type()).Underlying().(*types.Struct)
@@ -1197,4 +1229,155 @@ func (c *Ctx) statelessType(t types.Type) bool {
 		}
 	}
 	return true
+}
+
+// poolUses: the instructions that use a pooled object, other than handing it
+// back to the pool (Put, directly or through a helper that only resets and puts).
+func (c *Ctx) poolUses(o ssa.Value) []ssa.Instruction {
+	var out []ssa.Instruction
+	if o.Referrers() == nil {
+		return nil
+	}
+	isPutCall := func(cc *ssa.CallCommon) bool {
+		if strings.HasSuffix(Callee2(cc), "sync.Pool).Put") {
+			return true
+		}
+		if f := cc.StaticCallee(); f != nil && c.inRepo(f) && isPutHelper(f) {
+			return true
+		}
+		return false
+	}
+	for _, ref := range *o.Referrers() {
+		switch x := ref.(type) {
+		case *ssa.DebugRef:
+			continue
+		case *ssa.Call:
+			if isPutCall(&x.Call) {
+				continue
+			}
+		case *ssa.Defer:
+			if isPutCall(&x.Call) {
+				continue
+			}
+		case *ssa.MakeInterface:
+			// handed to Put as an interface value
+			onlyPut := x.Referrers() != nil
+			if onlyPut {
+				for _, r2 := range *x.Referrers() {
+					switch y := r2.(type) {
+					case *ssa.Call:
+						if !isPutCall(&y.Call) {
+							onlyPut = false
+						}
+					case *ssa.Defer:
+						if !isPutCall(&y.Call) {
+							onlyPut = false
+						}
+					case *ssa.DebugRef:
+					default:
+						onlyPut = false
+					}
+				}
+			}
+			if onlyPut {
+				continue
+			}
+		}
+		out = append(out, ref)
+	}
+	return out
+}
+
+// Callee2 names the callee of a call description.
+func Callee2(cc *ssa.CallCommon) string {
+	if f := cc.StaticCallee(); f != nil {
+		return Short(f.String())
+	}
+	return ""
+}
+
+// isPutHelper: a function whose parameter is only Reset() and put back.
+func isPutHelper(f *ssa.Function) bool {
+	if len(f.Params) != 1 || f.Params[0].Referrers() == nil {
+		return false
+	}
+	puts := false
+	for _, ref := range *f.Params[0].Referrers() {
+		switch x := ref.(type) {
+		case *ssa.DebugRef:
+		case *ssa.Call:
+			if strings.HasSuffix(Callee2(&x.Call), ").Reset") {
+				continue
+			}
+			return false
+		case *ssa.MakeInterface:
+			if x.Referrers() == nil {
+				return false
+			}
+			for _, r2 := range *x.Referrers() {
+				if y, ok := r2.(*ssa.Call); ok && strings.HasSuffix(Callee2(&y.Call), "sync.Pool).Put") {
+					puts = true
+					continue
+				}
+				if _, ok := r2.(*ssa.DebugRef); ok {
+					continue
+				}
+				return false
+			}
+		default:
+			return false
+		}
+	}
+	return puts
+}
+
+func hasResetMethod(t types.Type) bool {
+	ms := types.NewMethodSet(t)
+	for i := 0; i < ms.Len(); i++ {
+		m := ms.At(i).Obj()
+		if m.Name() == "Reset" {
+			if sig, ok := m.Type().(*types.Signature); ok && sig.Params().Len() == 0 && sig.Results().Len() == 0 {
+				return true
+			}
+		}
+	}
+	return false
+}
+
+// aliasEscapes: the value (a slice into pooled memory) reaches a return,
+// possibly re-sliced or merged on the way.
+func aliasEscapes(v ssa.Value, d int) ssa.Instruction {
+	if d > 5 || v.Referrers() == nil {
+		return nil
+	}
+	for _, ref := range *v.Referrers() {
+		switch x := ref.(type) {
+		case *ssa.Return:
+			return x
+		case *ssa.Slice:
+			if e := aliasEscapes(x, d+1); e != nil {
+				return e
+			}
+		case *ssa.Phi:
+			if e := aliasEscapes(x, d+1); e != nil {
+				return e
+			}
+		case *ssa.ChangeType:
+			if e := aliasEscapes(x, d+1); e != nil {
+				return e
+			}
+		case *ssa.Store:
+			// a result spilled to a local because the function defers
+			if al, ok := x.Addr.(*ssa.Alloc); ok && x.Val == v && al.Referrers() != nil {
+				for _, r2 := range *al.Referrers() {
+					if ld, ok := r2.(*ssa.UnOp); ok && ld.X == ssa.Value(al) {
+						if e := aliasEscapes(ld, d+1); e != nil {
+							return e
+						}
+					}
+				}
+			}
+		}
+	}
+	return nil
 }
